@@ -16,6 +16,14 @@ def traces():
                          [{"deck": deck, "xform": [{"kind": "rename_slides", "mode": mode, "seed": 1}]}],
                          [dict(ck, raw=True), {"op": "observe"}, ck, {"op": "restart"}]))
     box = {"x": 100000, "y": 100000, "cx": 2000000, "cy": 800000}
+    # the same with relationships BETWEEN slide parts (jump-to-slide actions, same directory): made in one session, slide parts renamed between
+    # the sessions, then save -> first .slides access -> save
+    for mode in ("gaps", "reverse", "shuffle", "midnext", "lastfits"):
+        evs = [{"op": "add_slide", "layout": 6}, {"op": "add_slide", "layout": 6}, {"op": "add_slide", "layout": 6}] + \
+              [dict(box, op="add_shape", slide=k, type=1) for k in range(3)] + \
+              [{"op": "click_target", "slide": k, "shape": 0, "target": (k + 2) % 3} for k in range(3)] + \
+              [ck, {"op": "restart", "xform": [{"kind": "rename_slides", "mode": mode, "seed": 2}]}, dict(ck, raw=True), {"op": "observe"}, ck, {"op": "restart"}, {"op": "observe"}, ck]
+        out.append(T("slide-jumps-then-renamed-slide-parts-%s" % mode, [{"deck": "default"}], evs))
     # drop_rel reference count: two runs + one shape share a URL; change one, save; clear all, save
     U = "http://example.com/"
     for kind in ("run", "click"):
